@@ -5,6 +5,7 @@ import (
 	"encoding/json"
 	"fmt"
 	"os"
+	"runtime"
 	"runtime/debug"
 	"strconv"
 	"strings"
@@ -52,6 +53,12 @@ func RunOne(t *testing.T, cfg *RunCfg) *RunResult {
 		})
 	}()
 	uninstallHooks()
+	if cfg.Profile == "nats" {
+		// the client library keeps timers in a sync.Pool: a timer made in one
+		// bubble must not be handed out in the next
+		runtime.GC()
+		runtime.GC()
+	}
 	res := s.result()
 	if bubbleErr != "" {
 		if strings.Contains(bubbleErr, "deadlock") {
@@ -79,6 +86,16 @@ func (s *Sim) shutdown() {
 		}
 	}
 	s.stopGateway()
+	if w := s.nats; w != nil {
+		s.releaseAll()
+		done := make(chan struct{})
+		go func() { w.cl.Close(); close(done) }()
+		w.wmu.Lock()
+		w.dead = true
+		w.wmu.Unlock()
+		w.srv.Close()
+		synctest.Wait()
+	}
 	s.releaseAll()
 	synctest.Wait()
 }
